@@ -502,6 +502,31 @@ pub fn op_build_media(script: &str) -> String {
     finish(build_media(script))
 }
 
+/// `cmp_holes`: build a playlist from the script, take a segment out through the public `segments` field (a hole stays), and
+/// compare with the same value made compact: `E:` their `==`, `X:` whether the segments sit in the same slots.
+pub fn op_cmp_holes(script: &str, index: &str) -> String {
+    let i: usize = match index.parse() {
+        Ok(i) => i,
+        Err(_) => return BAD_OP.to_string(),
+    };
+    finish(build_media_with(script, |p| {
+        use crate::kinds::{Kind, PMedia};
+        let mut a = p.clone();
+        if a.segments.has_element_at(i) {
+            a.segments.remove(i);
+        }
+        let mut b = a.clone();
+        b.segments.make_compact();
+        let slots_a: Vec<usize> = a.segments.iter().map(|(k, _)| k).collect();
+        let slots_b: Vec<usize> = b.segments.iter().map(|(k, _)| k).collect();
+        let mut out = String::from("ok ");
+        PMedia::obs(&a, &mut out);
+        out.push_str(if a == b { " E:1" } else { " E:0" });
+        out.push_str(if slots_a == slots_b { " X:1" } else { " X:0" });
+        out
+    }))
+}
+
 /// `owned_build_media`: a builder script (it may end in `parse <text>`), then `into_owned()` / `clone()` of what it made
 pub fn op_owned_build_media(script: &str) -> String {
     finish(build_media_with(script, |p| crate::ops::owned_line::<crate::kinds::PMedia>(p)))
@@ -556,6 +581,7 @@ enum MasterCall {
     /// renditions made with `ExtXMedia::builder()` (one argument per rendition: its `k=v` tokens joined by `+`), so that
     /// values no text can carry (a quote inside a group id …) reach the playlist builder
     MediaBuilt(Vec<Vec<String>>),
+    MediaFields(Vec<Vec<String>>),
     Variants(Vec<String>),
     Sdata(Vec<String>),
     Skeys(Vec<String>),
@@ -594,6 +620,14 @@ fn p_master_script(script: &str) -> Res<Vec<MasterCall>> {
                     media_from_tokens(&toks).map_err(|_| Fail::Bad)?;
                 }
                 MasterCall::MediaBuilt(items)
+            }
+            "mediaf" => {
+                let items: Vec<Vec<String>> = args.iter().map(|a| a.split('+').map(str::to_string).collect()).collect();
+                for it in &items {
+                    let toks: Vec<&str> = it.iter().map(String::as_str).collect();
+                    media_from_fields(&toks)?;
+                }
+                MasterCall::MediaFields(items)
             }
             "variants" => {
                 let texts = p_texts(args)?;
@@ -639,6 +673,14 @@ fn build_master(script: &str) -> Res<String> {
                 }
                 b.media(v);
             }
+            MasterCall::MediaFields(items) => {
+                let mut v = Vec::new();
+                for it in items {
+                    let toks: Vec<&str> = it.iter().map(String::as_str).collect();
+                    v.push(media_from_fields(&toks)?);
+                }
+                b.media(v);
+            }
             MasterCall::Variants(texts) => {
                 b.variant_streams(parse_all(texts, VariantStream::try_from)?);
             }
@@ -667,6 +709,38 @@ pub fn op_build_master(script: &str) -> String {
 fn build_tag_media(toks: &[&str]) -> Res<String> {
     let v = media_from_tokens(toks)?;
     Ok(value_response::<TExtXMedia>(&v, Layout::Tag))
+}
+
+/// a rendition made with `ExtXMedia::new(type, group, name)` and then changed through its PUBLIC FIELDS (`media_type`,
+/// `is_default`, `is_autoselect`, `is_forced`, `instream_id`, `channels`): no builder validation stands in between
+fn media_from_fields(toks: &[&str]) -> Res<ExtXMedia<'static>> {
+    let mt = |v: &str| -> Res<MediaType> {
+        Ok(match v {
+            "AUDIO" => MediaType::Audio,
+            "VIDEO" => MediaType::Video,
+            "SUBTITLES" => MediaType::Subtitles,
+            "CLOSED-CAPTIONS" => MediaType::ClosedCaptions,
+            _ => return Err(Fail::Bad),
+        })
+    };
+    let ty = mt(tok(toks, "type").ok_or(Fail::Bad)?)?;
+    let group = p_text(tok(toks, "group").ok_or(Fail::Bad)?)?;
+    let name = p_text(tok(toks, "name").ok_or(Fail::Bad)?)?;
+    let mut m = ExtXMedia::new(ty, group, name);
+    for t in toks {
+        let (k, v) = kv(t)?;
+        match k {
+            "type" | "group" | "name" => {}
+            "settype" => m.media_type = mt(v)?,
+            "default" => m.is_default = p_bool(v)?,
+            "autoselect" => m.is_autoselect = p_bool(v)?,
+            "forced" => m.is_forced = p_bool(v)?,
+            "instream" => m.instream_id = Some(v.parse::<InStreamId>().map_err(|_| Fail::Bad)?),
+            "channels" => m.channels = Some(v.parse::<Channels>().map_err(|_| Fail::Bad)?),
+            _ => return Err(Fail::Bad),
+        }
+    }
+    Ok(m)
 }
 
 fn media_from_tokens(toks: &[&str]) -> Res<ExtXMedia<'static>> {
